@@ -53,3 +53,88 @@ pub fn start(horizon: Duration, on_timeout: impl Fn(&str) + Send + 'static) {
         }
     });
 }
+
+
+// ---------------------------------------------------------------------------------------------
+// stall watchdog: a check (or one of its helper processes) whose threads have all stopped consuming CPU is blocked
+// inside the code under test - e.g. a deadlock between locks a change brought along. Without this the check would
+// neither pass nor fail.
+
+fn cpu_ticks_of(pid: &str) -> Option<(u64, u64)> {
+    let stat = std::fs::read_to_string(format!("/proc/{}/stat", pid)).ok()?;
+    // the command name is in parentheses and may contain blanks: fields are counted after the last ')'
+    let rest = &stat[stat.rfind(')')? + 2..];
+    let f: Vec<&str> = rest.split_whitespace().collect();
+    // rest[0] = state (field 3), ppid = field 4 -> index 1, utime = field 14 -> index 11, stime -> index 12
+    let ppid: u64 = f.get(1)?.parse().ok()?;
+    let ticks: u64 = f.get(11)?.parse::<u64>().ok()? + f.get(12)?.parse::<u64>().ok()?;
+    Some((ppid, ticks))
+}
+
+/// CPU ticks consumed so far by this process and its live descendants
+fn family_ticks() -> u64 {
+    let me = std::process::id() as u64;
+    let mut procs: Vec<(u64, u64, u64)> = vec![];
+    if let Ok(rd) = std::fs::read_dir("/proc") {
+        for e in rd.flatten() {
+            let name = e.file_name().to_string_lossy().to_string();
+            if let Ok(pid) = name.parse::<u64>() {
+                if let Some((ppid, ticks)) = cpu_ticks_of(&name) {
+                    procs.push((pid, ppid, ticks));
+                }
+            }
+        }
+    }
+    let mut family = vec![me];
+    let mut total = 0;
+    let mut i = 0;
+    while i < family.len() {
+        let p = family[i];
+        for (pid, ppid, ticks) in &procs {
+            if *pid == p {
+                total += ticks;
+            }
+            if *ppid == p && !family.contains(pid) {
+                family.push(*pid);
+            }
+        }
+        i += 1;
+    }
+    total
+}
+
+static HEARTBEAT: std::sync::atomic::AtomicU64 = std::sync::atomic::AtomicU64::new(0);
+
+/// a sign of life from a part of a check that legitimately waits without using CPU (helper processes that sit out
+/// stall periods of their own)
+pub fn beat() {
+    HEARTBEAT.fetch_add(1, std::sync::atomic::Ordering::Relaxed);
+}
+
+/// Starts the stall watchdog: when this process and all its descendants have used (almost) no CPU for `patience`,
+/// `on_stall` is called (it is expected to report and exit the process).
+pub fn stall_watchdog(patience: Duration, on_stall: impl Fn() + Send + 'static) {
+    std::thread::spawn(move || {
+        let period = Duration::from_secs(5);
+        let mut last = family_ticks();
+        let mut last_beat = HEARTBEAT.load(std::sync::atomic::Ordering::Relaxed);
+        let mut idle = Duration::from_secs(0);
+        loop {
+            std::thread::sleep(period);
+            let now = family_ticks();
+            let beat = HEARTBEAT.load(std::sync::atomic::Ordering::Relaxed);
+            // 100 ticks per second; less than 0.1 s of CPU in 5 s of wall time, and no sign of life, is idle
+            if now.saturating_sub(last) < 10 && beat == last_beat {
+                idle += period;
+            } else {
+                idle = Duration::from_secs(0);
+            }
+            last = now;
+            last_beat = beat;
+            if idle >= patience {
+                on_stall();
+                idle = Duration::from_secs(0);
+            }
+        }
+    });
+}
